@@ -447,7 +447,42 @@ def rule_R22(text, fired):
         _count(fired, 'R22')
 
 
+# ---- R23: Iterator::any / all over a slice ---------------------------------------------------------
+R23_RX = re.compile(r'([\w\.]+)\.iter\(\)\.(any|all)\(\|(\w+)\|\s*')
+
+
+def rule_R23(text, fired):
+    """`E.iter().any(|x| BODY)` -> `{ let mut r_any = false; let mut i_x = 0; while i_x < E.len() { let x = &E[i_x]; if BODY { r_any = true;
+    break; } i_x += 1; } r_any }`, and `all` with `if !(BODY) { r_all = false; break; }`.  Trusted: Iterator::any / all over a slice
+    iterator evaluate the closure on the elements left to right and stop at the first hit."""
+    while True:
+        m = R23_RX.search(text)
+        if not m:
+            return text
+        i = m.end()
+        depth = 1
+        while depth > 0:
+            c = text[i]
+            if c in '([{':
+                depth += 1
+            elif c in ')]}':
+                depth -= 1
+            i += 1
+        body = text[m.end():i - 1].strip()
+        e, kind, x = m.group(1), m.group(2), m.group(3)
+        idx = 'i_' + x
+        if kind == 'any':
+            rep = (f'{{ let mut r_any = false; let mut {idx}: usize = 0; while {idx} < {e}.len() {{ let {x} = &{e}[{idx}]; '
+                   f'if {body} {{ r_any = true; break; }} {idx} += 1; }} r_any }}')
+        else:
+            rep = (f'{{ let mut r_all = true; let mut {idx}: usize = 0; while {idx} < {e}.len() {{ let {x} = &{e}[{idx}]; '
+                   f'if !({body}) {{ r_all = false; break; }} {idx} += 1; }} r_all }}')
+        text = text[:m.start()] + rep + text[i:]
+        _count(fired, 'R23')
+
+
 RULES = {
+    'R23': rule_R23,
     'R22': rule_R22,
     'R21': rule_R21,
     'R20': rule_R20,
@@ -465,7 +500,7 @@ RULES = {
     'R9': rule_R9,
     'R13': rule_R13,
 }
-ORDER = ['R22', 'R21', 'R19', 'R20', 'R10', 'R2', 'R9', 'R6b', 'R6', 'R7', 'R13', 'R14', 'R15', 'R16', 'R18', 'R5']
+ORDER = ['R23', 'R22', 'R21', 'R19', 'R20', 'R10', 'R2', 'R9', 'R6b', 'R6', 'R7', 'R13', 'R14', 'R15', 'R16', 'R18', 'R5']
 
 
 def apply_rules(text, active, fired, extra_subs=()):
